@@ -299,8 +299,24 @@ func (x *LabelExec) Apply(op drv.Op) (handled bool, v *drv.Violation, err error)
 			exSV = append(exSV, sv)
 		}
 		sort.Slice(exSV, func(i, j int) bool { return exSV[i] < exSV[j] })
+		// "ghosts": supervoxels merged into a body that still has voxels, whose own voxels have all been overwritten;
+		// the mapping outlives the voxels, so writing the id again adds voxels to that body
+		var ghosts []uint64
+		bodyHas := map[uint64]bool{}
+		for sv := range existing {
+			bodyHas[lv.Body(sv)] = true
+		}
+		for sv, b := range lv.Map {
+			if existing[sv] == 0 && bodyHas[b] {
+				ghosts = append(ghosts, sv)
+			}
+		}
+		sort.Slice(ghosts, func(i, j int) bool { return ghosts[i] < ghosts[j] })
 		for i := 0; i < nl; i++ {
-			if len(exSV) > 0 && r.IntN(4) == 0 {
+			if len(ghosts) > 0 && r.IntN(3) == 0 {
+				labels = append(labels, pick(r, ghosts))
+				w.Stats.Probe("ghost-supervoxel-rewritten")
+			} else if len(exSV) > 0 && r.IntN(4) == 0 {
 				labels = append(labels, pick(r, exSV)) // a supervoxel that continues into these blocks
 			} else {
 				l := x.newSV(r)
